@@ -10,7 +10,7 @@ from typing import Dict, List, Optional, Set
 
 from ..program import AnalysisError, FunctionInfo, fn_nodes, norm
 from ..cfg import cfg_of
-from .common import misguarded_member_stores, resolve_all, find_local, JWE_CONSUME, JWE_PRODUCE, can_reach_exit, const_value, entries, impls, is_const, scope_of, sites_calling, succ_by_label
+from .common import len_vs_const, misguarded_member_stores, resolve_all, find_local, JWE_CONSUME, JWE_PRODUCE, can_reach_exit, const_value, entries, impls, is_const, scope_of, sites_calling, succ_by_label
 
 RFC7516_TOP = {"protected", "unprotected", "iv", "aad", "ciphertext", "tag"}
 RFC7516_RCP = {"header", "encrypted_key"}
@@ -44,8 +44,9 @@ def r04_1(ctx) -> None:
                         direct_calls.append((c2, cn))
             rejects = []
             for t in cfg.nodes:
-                if t.kind == "test" and isinstance(t.ast, ast.Compare) and norm(t.ast.left).startswith("len(") and "recipients" in norm(t.ast.left):
-                    op, c = t.ast.ops[0], const_value(t.ast.comparators[0])
+                cmpx = len_vs_const(t.ast, lambda x: x.startswith("len(") and "recipients" in x) if t.kind == "test" else None
+                if cmpx is not None:
+                    op, c = cmpx
                     lab = None
                     if (isinstance(op, ast.Gt) and c == 1) or (isinstance(op, ast.GtE) and c == 2) or (isinstance(op, ast.NotEq) and c == 1):
                         lab = "true"
